@@ -70,4 +70,4 @@ NOT_APPLICABLE = {
 }
 
 # properties whose check is complete (theorems proved, correspondence wired) and therefore claimed in MANIFEST.json
-CLAIMED = ["C01", "C02", "C05", "C06", "C09", "C14"]
+CLAIMED = ["C01", "C02", "C05", "C06", "C08", "C09", "C14"]
